@@ -60,6 +60,7 @@ struct HistObs {
     oom_extend: Vec<(usize, usize)>,
     max_fill: usize,
     ops: usize,
+    debug_like_slice: usize,
 }
 
 impl<'a> CapVisitor for RunHist<'a> {
@@ -179,13 +180,18 @@ impl<'a> CapVisitor for RunHist<'a> {
                         "buffers compare unequal (stale bytes / history visible)",
                     ));
                 }
-                for (fmtname, a, e) in [
-                    ("{:?}", format!("{:?}", b), format!("{:?}", &m.v[..])),
-                    ("{:x?}", format!("{:x?}", b), format!("{:x?}", &m.v[..])),
-                    ("{:#?}", format!("{:#?}", b), format!("{:#?}", &m.v[..])),
+                // Debug output depends only on the visible contents: a buffer with another history but the same
+                // contents prints the same (that it equals the slice's own format is recorded, not required)
+                for (fmtname, a, e, sl) in [
+                    ("{:?}", format!("{:?}", b), format!("{:?}", fresh), format!("{:?}", &m.v[..])),
+                    ("{:x?}", format!("{:x?}", b), format!("{:x?}", fresh), format!("{:x?}", &m.v[..])),
+                    ("{:#?}", format!("{:#?}", b), format!("{:#?}", fresh), format!("{:#?}", &m.v[..])),
                 ] {
                     if a != e {
-                        return Err(Fail::new("debug", format!("{} of the visible contents: {}", fmtname, e), a));
+                        return Err(Fail::new("debug", format!("{} equals that of a freshly built buffer with the same contents: {}", fmtname, e), a));
+                    }
+                    if a == sl {
+                        obs.debug_like_slice += 1;
                     }
                 }
                 // unequal contents must compare unequal
@@ -262,6 +268,7 @@ impl PropCase for Hist {
         };
         ctx.class_s(&format!("{} {} ops={}", nclass, fl, if obs.ops <= 7 { obs.ops.to_string() } else { "8+".into() }));
         ctx.add("operations_compared", obs.ops as u64);
+        ctx.add("debug_outputs_equal_to_slice_format", obs.debug_like_slice as u64);
         if ctx.want_sample(&nclass) {
             let t = ops_text(&self.ops);
             ctx.sample(&nclass, || format!("buf={} ops={} -> model and buffer agree after every op", self.buf.name(), if t.len() > 200 { format!("{}..", &t[..200]) } else { t }));
